@@ -722,6 +722,7 @@ pub fn run_line(v: &Value) -> Option<String> {
         }
         "read" => read_event(&pkt),
         "hdr" => Some(header_event(v)),
+        "walk" => crate::hist::run_walk(v),
         "nametext" => Some(nametext_event(&vbytes(&v["text"]), &vbytes(&v["zone"]))),
         "decomp" => Some(decomposition_sweep(vusize(&v["threads"]).max(1))),
         "uncompress" => {
